@@ -37,6 +37,35 @@ EINSUM["thorough"] = EINSUM["quick"] + [
     ("iij->j", ((2, 2, 3),)), ("i,j,k->ijk", ((2,), (3,), (2,))),
 ]  # fmt: skip
 
+# ellipsis family: every operand's '...' independently covers 0, 1 or 2 broadcast axes (NumPy aligns them to the RIGHT); the broadcast
+# axes have equal lengths (2,2) or distinct lengths (3,2).  (operand terms, output term or None = implicit output, core letter sizes)
+ELL_TEMPLATES = [
+    (("...i", "...i"), "...", {"i": 2}),
+    (("...ij", "...jk"), "...ik", {"i": 2, "j": 2, "k": 1}),
+    (("...ij", "...j"), None, {"i": 1, "j": 2}),
+    (("i...", "...i"), "...", {"i": 2}),
+    (("...", "..."), "...", {}),
+    (("...i", "i..."), None, {"i": 2}),
+    (("...i", "...i", "..."), "...", {"i": 2}),
+]
+ELL_BDIMS = {"eq": (2, 2), "neq": (3, 2)}
+
+
+def ell_cases(ti):
+    terms, out, sizes = ELL_TEMPLATES[ti]
+    sub = ",".join(terms) + ("" if out is None else "->" + out)
+    for ks in itertools.product((0, 1, 2), repeat=len(terms)):
+        for bname in ("eq", "neq") if len(terms) == 2 else ("eq",):
+            if bname == "neq" and max(ks) < 2:
+                continue  # identical to "eq" when only the last broadcast axis is used
+            bd = ELL_BDIMS[bname]
+            shps = []
+            for term, k in zip(terms, ks):
+                before, after = term.split("...")
+                shps.append(tuple(sizes[c] for c in before) + tuple(bd[len(bd) - k :]) + tuple(sizes[c] for c in after))
+            yield sub, tuple(shps)
+
+
 TD_PAIRS = {
     "quick": [((3,), (3,)), ((4,), (4,)), ((2, 3), (3,)), ((3,), (3, 2)), ((2, 3), (3, 2)), ((2, 3), (2, 3)), ((2, 4), (4, 3)), ((2, 2, 3), (3, 2)), ((2, 3, 2), (2, 3))],
 }
@@ -58,7 +87,9 @@ def RULE(tier):
         "spec (ints 0..k, every pair of axis tuples of length <= 2 in every order, int-pair and negative forms) x {int*int, int*float}; dot, matmul "
         "(function and @, broadcast batch axes, 1-d promotions), outer, vdot (complex), np.inner dispatch: all chunkings x operand kinds "
         f"{{dask.dask, dask.numpy, numpy.dask}}; einsum: {len(EINSUM[tier])} subscript patterns (contraction, trace, diagonal, ellipsis, implicit output, "
-        "3 operands, transposed output) x all chunkings x optimize {False, greedy} x split_every {None, 2}. Oracle: value, dtype, lazy shape/chunks == NumPy. "
+        "3 operands, transposed output) x all chunkings x optimize {False, greedy} x split_every {None, 2}; ellipsis family: "
+        f"{len(ELL_TEMPLATES)} templates ('...i,...i->...', '...ij,...jk->...ik', implicit outputs, leading/trailing '...', 3 operands) x every assignment of 0/1/2 "
+        "broadcast axes to each operand's '...' x broadcast lengths {(2,2), (3,2)} x all chunkings. Oracle: value, dtype, lazy shape/chunks == NumPy. "
         f"qr and svd: {len(QR_SHAPES[tier])} matrix shapes (n x 2, 2 x n, n <= 6, and 3..5 wide) x EVERY chunking x {{full-rank, rank-1}}: single column of "
         "chunks -> tsqr, single row -> sfqr, otherwise the documented refusal; Q^T Q = I, R upper-triangular, Q R = A; U diag(s) V = A, s == "
         "numpy.linalg.svd, with and without coerce_signs. non-trivial = some operand has >= 2 chunks."
@@ -103,6 +134,8 @@ def shards(tier):
     out.append(("inner",))
     for i in range(len(EINSUM[tier])):
         out.append(("einsum", i))
+    for ti in range(len(ELL_TEMPLATES)):
+        out.append(("einsum-ell", ti))
     for shp in QR_SHAPES[tier]:
         out.append(("qr", shp))
         out.append(("svd", shp))
@@ -163,6 +196,10 @@ def cases_of(shard, tier):
             for opt in (False, "greedy"):
                 for se in (None, 2):
                     yield ("einsum", sub, shps, tuple(tuple(c) for c in chs), opt, se)
+    elif kind == "einsum-ell":
+        for sub, shps in ell_cases(shard[1]):
+            for chs in itertools.product(*[list(enums.chunkings(s)) for s in shps]):
+                yield ("einsum", sub, shps, tuple(tuple(c) for c in chs), False, None)
     elif kind in ("qr", "svd"):
         shp = shard[1]
         for ch in enums.chunkings(shp):
